@@ -13,7 +13,7 @@
 (*    reencSame.                                                            *)
 (*  REG record: code, cls (what the factory created), ctorCode, backCls.    *)
 (***************************************************************************)
-EXTENDS Registry, TLC, Json, IOUtils
+EXTENDS Registry, ImageScope, TLC, Json, IOUtils
 
 CONSTANT Which     \* "C03" | "C01" | "C17" | "C02"
 
@@ -46,6 +46,7 @@ RoundTrip(r) ==
   /\ r.sameFields /\ r.reencSame
   /\ (r.sameShape \/ r.widthTrunc)       \* payload lengths not representable in the length field are out of scope
   /\ r.consumed = r.emitted
+  /\ OwnedOK(r.cls, r.ownedMembers)     \* the encoder overwrites nothing but the designated length fields
 
 (* C17 — factory, constructors and files agree on type codes *)
 FactoryConsistent(r) ==
@@ -70,6 +71,8 @@ ImageOK(r) ==
   /\ r.complete
   /\ r.identity
   /\ r.derivedBad = 0
+  /\ OwnedOK(r.cls, r.ownedMembers)     \* decoded field values are carried over, only designated lengths are derived
+  /\ r.inScope >= InScopeFloor(r.name, r.tier)   \* no value that is a plain field value in the format acts as a selector
 
 (* C01 at file level — a sequence written through File and read back through File: every object comes back, in
    order, equal to what the object-level codec gives for it (RoundTrip above), followed by the end-of-file triple *)
